@@ -26,6 +26,7 @@ def main():
         sys.exit(rc)
 
     t0 = time.time()
+    repo_before = C.sh(f"git -C {C.REPO} status --porcelain", timeout=60)[1]
     res = C.Result(prop)
     kf = C.known_findings()
     res.known_ids = {f["id"]: f for f in kf.get("findings", []) if f.get("property") == prop}
@@ -77,6 +78,12 @@ def main():
     except Exception as e:  # machinery failure is reported, never swallowed
         tb = traceback.format_exc()
         res.violation("harness-error", None, tb[-3000:], no_input=True)
+
+    # the check itself must leave the tree under test untouched
+    repo_after = C.sh(f"git -C {C.REPO} status --porcelain", timeout=60)[1]
+    if repo_after != repo_before:
+        res.violation("harness-error", None, f"check modified the tree under test: before={repo_before!r} after={repo_after!r}",
+                      no_input=True)
 
     # 4. a broken proof / tie with no concrete failing input found
     if not proof_ok and not any(not v["no_input"] for v in res.violations):
